@@ -17,8 +17,39 @@ def new_dirs(tag=""):
     os.makedirs(cache); os.makedirs(ext)
     return base, cache, ext
 
+def _layout(base, cache, layout):
+    """the path the harness is given for the cache, and its working directory.
+    "symlink": the path is a symbolic link to the real cache directory.
+    "dotdot":  a relative path  link/../cache  where link -> ../elsewhere/deep, so that the path only means the real
+               cache when `..` is resolved after following the link (as the OS does), not textually."""
+    if layout == "symlink":
+        lnk = os.path.join(base, "cache-link")
+        os.symlink(cache, lnk)
+        return lnk, None, [lnk]
+    if layout == "dotdot":
+        work = os.path.join(base, "work"); deep = os.path.join(base, "elsewhere", "deep")
+        os.makedirs(work); os.makedirs(deep)
+        # the real cache must be  <base>/elsewhere/cache : move it there
+        real = os.path.join(base, "elsewhere", "cache")
+        os.rename(cache, real); os.symlink(real, cache)           # keep the orchestrator's path valid
+        os.symlink(os.path.join("..", "elsewhere", "deep"), os.path.join(work, "link"))
+        return os.path.join("link", "..", "cache"), work, [work]
+    return cache, None, []
+
+def _layout_violation(layout, watch, cache):
+    """direct oracle for the layouts: nothing but what we put there exists next to / instead of the real cache"""
+    if layout == "symlink":
+        lnk = watch[0]
+        if not os.path.islink(lnk):
+            return "the cache path was a symbolic link to the cache directory; after the program it no longer is one (the real cache was left behind)"
+    if layout == "dotdot":
+        extra = sorted(set(os.listdir(watch[0])) - {"link"})
+        if extra:
+            return f"files were created outside the cache directory the caller named (textual '..' resolution): {extra} next to the link"
+    return None
+
 def run_program(prog, flavours=("sync",), model=None, link_to=False, compare_tree="end", stop_on_first=True,
-                env=None, timeout_ms=20000):
+                env=None, timeout_ms=20000, layout=None):
     """prog: list of op dicts; an op may carry "bin": index into `flavours` (default 0) to choose which
     harness process executes it (mixed-flavour programs).  Returns a dict:
       steps: [(op, model_canon, impl_canon, reason|None)], tree: reason|None, ok: bool"""
@@ -26,10 +57,12 @@ def run_program(prog, flavours=("sync",), model=None, link_to=False, compare_tre
     own_model = model is None
     m = model or ModelProc()
     m.reset()
-    impls = [ImplProc(f, cache, ext, link_to=link_to, env=env, timeout_ms=timeout_ms) for f in flavours]
+    cache_arg, cwd, watch = _layout(base, cache, layout)
+    impls = [ImplProc(f, cache_arg, ext, link_to=link_to, env=env, timeout_ms=timeout_ms, cwd=cwd) for f in flavours]
     times, steps, ok, tree_reason = {}, [], True, None
     raced = False
     content_bad = []
+    layout_bad = None
     try:
         for idx, op in enumerate(prog):
             if op["op"] == "damage":
@@ -84,6 +117,9 @@ def run_program(prog, flavours=("sync",), model=None, link_to=False, compare_tre
             tree_reason = compare_trees(m, cache, ext, times)
             if tree_reason is not None:
                 ok = False
+        lv = _layout_violation(layout, watch, cache) if layout else None
+        if lv is not None:
+            ok = False; layout_bad = lv
         if not ok and not any(op["op"] == "damage" for op in prog):
             # direct oracle for C03 on a disagreeing program: every file under content-v2 hashes to its path
             try:
@@ -97,7 +133,7 @@ def run_program(prog, flavours=("sync",), model=None, link_to=False, compare_tre
         if own_model:
             m.close()
         shutil.rmtree(base, ignore_errors=True)
-    return {"steps": steps, "tree": tree_reason, "ok": ok, "raced": raced, "content_bad": content_bad}
+    return {"steps": steps, "tree": tree_reason, "ok": ok, "raced": raced, "content_bad": content_bad, "layout_bad": layout_bad}
 
 def compare_trees(m, cache, ext, times):
     first, extra = m.cmd("dump")
